@@ -23,6 +23,22 @@ Split(D, s, U) ==
       c3 == IF "M" \in U THEN c2 % 60 ELSE c2
       S == IF "S" \in U THEN c3 ELSE 0
   IN [w |-> w, d |-> d, H |-> H, M |-> M, S |-> S]
+(* the same function written so that no intermediate value exceeds the largest printed one (the whole-days part is folded into the
+   coarsest requested time unit by multiplication, never into seconds first): used by DurationTrace on spans beyond 2^31 seconds, where the
+   total in seconds leaves TLC's 32-bit integers; SplitSame (below) shows it equal to Split *)
+Split2(D, s, U) ==
+  LET w == IF "w" \in U THEN D \div 7 ELSE 0
+      D1 == IF "w" \in U THEN D % 7 ELSE D
+      d == IF "d" \in U THEN D1 ELSE 0
+      R == IF "d" \in U THEN 0 ELSE D1                      \* whole days still to be carried by a time unit
+      H == IF "H" \in U THEN R * 24 + s \div 3600 ELSE 0
+      R2 == IF "H" \in U THEN 0 ELSE R
+      s2 == IF "H" \in U THEN s % 3600 ELSE s
+      M == IF "M" \in U THEN R2 * 1440 + s2 \div 60 ELSE 0
+      R3 == IF "M" \in U THEN 0 ELSE R2
+      s3 == IF "M" \in U THEN s2 % 60 ELSE s2
+      S == IF "S" \in U THEN R3 * 86400 + s3 ELSE 0
+  IN [w |-> w, d |-> d, H |-> H, M |-> M, S |-> S]
 Total(D, s) == D * 86400 + s
 Recomb(v) == v.w * 604800 + v.d * 86400 + v.H * 3600 + v.M * 60 + v.S
 Finest(U) == IF "S" \in U THEN 1 ELSE IF "M" \in U THEN 60 ELSE IF "H" \in U THEN 3600 ELSE IF "d" \in U THEN 86400 ELSE 604800
@@ -40,6 +56,7 @@ Coarser(u) == {c \in U : SecsOf(c) > SecsOf(u)}
 NextCoarser(u) == CHOOSE c \in Coarser(u) : \A e \in Coarser(u) : SecsOf(c) <= SecsOf(e)
 InRange == LET v == Split(D, s, U) IN
              \A u \in U : Coarser(u) # {} => v[u] * SecsOf(u) < SecsOf(NextCoarser(u))
+SplitSame == Split2(D, s, U) = Split(D, s, U)
 Plain == /\ (U = {"S"} => Split(D, s, U).S = Total(D, s))
          /\ (U = {"d"} => Split(D, s, U).d = D)
 =============================================================================
